@@ -153,17 +153,19 @@ def scan_set_displays():
 
 FULL = {
     "simulation": {
-        "markets": ["Spot", "Spot2", "Index"], "agents": ["FCN", "Share", "Maker", "Arb"],
+        "markets": ["Spot", "Spot2", "Index", "Grp", "GrpB"], "agents": ["FCN", "Share", "Maker", "Arb"],
         "sessions": [
             {"sessionName": 0, "iterationSteps": 4, "withOrderPlacement": True, "withOrderExecution": False,
              "withPrint": False, "maxNormalOrders": 3},
             {"sessionName": 1, "iterationSteps": 8, "withOrderPlacement": True, "withOrderExecution": True,
-             "withPrint": False, "maxNormalOrders": 3, "maxHighFrequencyOrders": 2,
+             "withPrint": False, "maxNormalOrders": 3, "maxHighFrequencyOrders": 2, "highFrequencySubmitRate": 0.5,
              "events": ["FShock", "Mistake", "Limit", "Halt"]}],
         "fundamentalCorrelations": {"pairwise": [["Spot", "Spot2", 0.6]]}},
     "Spot": {"class": "Market", "tickSize": 0.01, "marketPrice": 300.0, "outstandingShares": 1000,
              "fundamentalVolatility": 0.01, "fundamentalDrift": 0.001},
     "Spot2": {"extends": "Spot", "marketPrice": 310.0},
+    "Grp": {"class": "Market", "tickSize": 0.5, "marketPrice": 100.0, "from": 0, "to": 1, "prefix": "G"},
+    "GrpB": {"extends": "Grp", "marketPrice": 120.0, "from": 5, "to": 5, "prefix": "H"},
     "Index": {"class": "IndexMarket", "tickSize": 0.01, "marketPrice": 305.0, "markets": ["Spot", "Spot2"]},
     "FCN": {"class": "FCNAgent", "numAgents": 6, "markets": ["Spot", "Spot2", "Index"],
             "assetVolume": [10, 60], "cashAmount": {"uniform": [5000, 15000]},
